@@ -55,6 +55,9 @@ def gen(seed, tier):
                 {"id": "par%d" % i, "flavour": pfl, "via": rng.choice(["queued", "queued", "service-pre"]), "steps": [["sleep", rng.choice([0.0, 0.0, 0.1, 0.4])], [op, pid], ["hb", 0.5, None]], "parent_of": pid}
             )
         payloads.append(spec)
+    if rng.random() < 0.4:
+        # garbage collection while payloads idle on awaitables only they reference
+        dscript += [["sleep", rng.choice([0.0, 0.05, 0.2])], ["gc"]]
     triggers = []
     if relaxed:
         trig = rng.choice(["sigint", "shutdown"])
